@@ -214,3 +214,471 @@ Lemma kind_of_new k : kind_of (new_builder k) = k.
 Proof. destruct k; reflexivity. Qed.
 Lemma kind_of_fold cs b : kind_of (fold_left apply_call cs b) = kind_of b.
 Proof. revert b. induction cs as [|c cs IH]; intros b; simpl; [reflexivity|]. rewrite IH. apply kind_of_apply_call. Qed.
+
+(* ================================================================== the builder store *)
+
+(* env records the kinds of the builders of st *)
+Definition agree (env : alist bid kind) (st : alist bid builder) : Prop :=
+  forall x, aget N.eqb x env = option_map kind_of (sget st x).
+
+Lemma sget_aset_same (st : alist bid builder) b v : sget (aset N.eqb b v st) b = Some v.
+Proof. unfold sget. apply (aget_aset_same N.eqb N.eqb_spec). Qed.
+Lemma sget_aset_other (st : alist bid builder) b b' v : b <> b' -> sget (aset N.eqb b' v st) b = sget st b.
+Proof. unfold sget. apply (aget_aset_other N.eqb N.eqb_spec). Qed.
+
+Lemma is_hdr_agree env st r : agree env st ->
+  is_hdr st r = match aget N.eqb r env with Some k => is_hdr_kind k | None => false end.
+Proof.
+  intros H. unfold is_hdr. rewrite (H r). destruct (sget st r) as [[e|ls|m]|]; simpl; try reflexivity.
+  destruct (b_pb e); reflexivity.
+Qed.
+Lemma norm_agree env st c : agree env st -> norm_call st c = norm_k env c.
+Proof. intros H. destruct c; simpl; try reflexivity. f_equal. apply filter_ext. intros r. apply is_hdr_agree; auto. Qed.
+
+Lemma agree_set_same_kind env st b bl bl' :
+  agree env st -> sget st b = Some bl -> kind_of bl' = kind_of bl -> agree env (aset N.eqb b bl' st).
+Proof.
+  intros H Hb Hk x. destruct (N.eq_dec x b) as [->|Hne].
+  - rewrite sget_aset_same. simpl. rewrite Hk. rewrite (H b), Hb. reflexivity.
+  - rewrite sget_aset_other by auto. apply H.
+Qed.
+Lemma agree_new env st b k :
+  agree env st -> agree (aset N.eqb b k env) (aset N.eqb b (new_builder k) st).
+Proof.
+  intros H x. destruct (N.eq_dec x b) as [->|Hne].
+  - rewrite sget_aset_same, (aget_aset_same N.eqb N.eqb_spec). simpl. rewrite kind_of_new. reflexivity.
+  - rewrite sget_aset_other by auto. rewrite (aget_aset_other N.eqb N.eqb_spec) by auto. apply H.
+Qed.
+
+Lemma kinds_from_keeps p : forall env b k, aget N.eqb b env = Some k -> aget N.eqb b (kinds_from env p) = Some k.
+Proof.
+  induction p as [|x p IH]; intros env b k H; simpl; auto.
+  destruct x as [y ky|y cy|y|y cy]; auto. apply IH. unfold declare.
+  destruct (aget N.eqb y env) eqn:E; auto.
+  destruct (N.eq_dec b y) as [->|Hne]; [congruence|].
+  rewrite (aget_aset_other N.eqb N.eqb_spec); auto.
+Qed.
+
+(* builders do not interfere: what the store holds for b is the fold of the calls made on b *)
+Lemma store_run_from p : forall s env b, agree env (st_store s) ->
+  sget (st_store (run_from s p)) b =
+    match sget (st_store s) b with
+    | Some bl => Some (fold_left apply_call (calls_from env b p) bl)
+    | None => match aget N.eqb b (kinds_from env p) with
+              | Some k => Some (fold_left apply_call (calls_from env b p) (new_builder k))
+              | None => None
+              end
+    end.
+Proof.
+  induction p as [|x p IH]; intros s env b Hag.
+  - simpl. destruct (sget (st_store s) b) eqn:E; [reflexivity|]. rewrite (Hag b), E. reflexivity.
+  - unfold run_from in *. simpl fold_left.
+    destruct x as [y k|y c|y|y cc]; simpl calls_from; simpl kinds_from.
+    + (* SNew *)
+      simpl step_state. destruct (sget (st_store s) y) as [bl|] eqn:Ey.
+      * assert (Hd : declare env y k = env). { unfold declare. rewrite (Hag y), Ey. reflexivity. }
+        rewrite Hd. apply IH; auto.
+      * assert (Hd : declare env y k = aset N.eqb y k env). { unfold declare. rewrite (Hag y), Ey. reflexivity. }
+        rewrite Hd. rewrite (IH _ (aset N.eqb y k env) b) by (simpl; apply agree_new; auto).
+        simpl st_store. destruct (N.eq_dec b y) as [->|Hne].
+        -- rewrite sget_aset_same, Ey.
+           rewrite (kinds_from_keeps p _ y k) by apply (aget_aset_same N.eqb N.eqb_spec). reflexivity.
+        -- rewrite sget_aset_other by auto. reflexivity.
+    + (* SCall *)
+      simpl step_state. destruct (sget (st_store s) y) as [bl|] eqn:Ey.
+      * rewrite (IH _ env b) by (simpl; eapply agree_set_same_kind; eauto using kind_of_apply_call).
+        simpl st_store.
+        assert (Hm : amem N.eqb y env = true). { unfold amem. rewrite (Hag y), Ey. reflexivity. }
+        rewrite Hm, andb_true_r. destruct (N.eqb_spec y b) as [->|Hne].
+        -- rewrite sget_aset_same, Ey. simpl. rewrite (norm_agree env) by auto. reflexivity.
+        -- rewrite sget_aset_other by auto. simpl. reflexivity.
+      * assert (Hm : amem N.eqb y env = false). { unfold amem. rewrite (Hag y), Ey. reflexivity. }
+        rewrite Hm, andb_false_r. simpl. apply IH; auto.
+    + (* SProto *)
+      simpl step_state. destruct (sget (st_store s) y) as [[e|ls|m]|];
+        match goal with |- sget (st_store (fold_left step_state p ?s')) _ = _ => exact (IH s' env b Hag) end.
+    + (* SClient *)
+      match goal with |- sget (st_store (fold_left step_state p ?s')) _ = _ => exact (IH s' env b Hag) end.
+Qed.
+
+(* C18_fields_exact, program level: the state of every builder after ANY program is the one the
+   tables prescribe for the calls the program made on it *)
+Theorem store_exact p b : sget (st_store (run p)) b = spec_store p b.
+Proof.
+  unfold run, spec_store, kinds, calls_on.
+  rewrite (store_run_from p state0 [] b) by (intros x; reflexivity).
+  simpl. destruct (aget N.eqb b (kinds_from [] p)); [|reflexivity].
+  rewrite builder_exact. reflexivity.
+Qed.
+
+Corollary resolve_exact p r :
+  resolve (st_store (run p)) r = match spec_store p r with Some h => encap_proto h | None => encap0 end.
+Proof. unfold resolve. rewrite store_exact. reflexivity. Qed.
+
+Lemma payload_exact p pb : payload_of (st_store (run p)) pb = payload_with (spec_resolve p) pb.
+Proof.
+  unfold payload_of. destruct pb as [m|m|m|m|m]; simpl; try reflexivity.
+  destruct (ns_present m); [|reflexivity]. unfold body_with. do 4 f_equal.
+  apply map_ext. intros [i r]. simpl. rewrite resolve_exact. reflexivity.
+Qed.
+
+(* ================================================================== one client *)
+
+Definition inv1 (cl : client) : Prop := c_sending cl = true -> c_sendq cl = [].
+
+Lemma handshake_ops cl : flat_map m_ops (handshake cl) = [].
+Proof. unfold handshake. destruct (c_params cl), (c_elec0 cl); reflexivity. Qed.
+
+Lemma all_ops_enqueue cl m n cur : inv1 cl -> all_ops (enqueue cl m n cur) = all_ops cl ++ m_ops m.
+Proof.
+  intros H. unfold all_ops, queued, enqueue. destruct (c_sending cl) eqn:E; simpl.
+  - rewrite (H E). rewrite !app_nil_r. rewrite flat_map_app. simpl. rewrite app_nil_r. reflexivity.
+  - rewrite app_assoc. rewrite flat_map_app. simpl. rewrite app_nil_r. reflexivity.
+Qed.
+
+Lemma nseq_length a n : List.length (nseq a n) = n.
+Proof. revert a. induction n; intros a; simpl; auto. Qed.
+Lemma nseq_app a n m : nseq a (n + m) = nseq a n ++ nseq (a + N.of_nat n) m.
+Proof.
+  revert a. induction n; intros a; simpl.
+  - f_equal. lia.
+  - f_equal. rewrite IHn. f_equal. f_equal. lia.
+Qed.
+Lemma map_fst_combine_nseq {B} a (l : list B) : map fst (combine (nseq a (List.length l)) l) = nseq a (List.length l).
+Proof. revert a. induction l; intros a0; simpl; auto. f_equal. apply IHl. Qed.
+
+Lemma mk_ops_eq st k mode cur es : forall count,
+  mk_ops st k mode cur count es
+  = map (fun ie => MkOp (fst ie) (b_ni (snd ie)) k (stamp mode cur (b_elec (snd ie))) (payload_of st (b_pb (snd ie))))
+        (combine (nseq (count + 1) (List.length es)) es).
+Proof. induction es as [|e es IH]; intros count; simpl; auto. f_equal. apply IH. Qed.
+
+Lemma ops_of_call_modify st cl k bs cc : opk_of cc = Some (k, bs) -> c_started cl = true ->
+  ops_of_call st cl cc = mk_ops st k (c_mode cl) (c_cur cl) (c_count cl) (entries st bs).
+Proof. intros H1 H2. unfold ops_of_call. rewrite H1, H2. rewrite mk_ops_eq. reflexivity. Qed.
+
+Lemma ops_of_call_length st cl cc k bs : opk_of cc = Some (k, bs) -> c_started cl = true ->
+  List.length (ops_of_call st cl cc) = List.length (entries st bs).
+Proof.
+  intros H1 H2. unfold ops_of_call. rewrite H1, H2. rewrite map_length, combine_length, nseq_length. apply Nat.min_id.
+Qed.
+
+Lemma modify_ops st cl k bs cc : opk_of cc = Some (k, bs) -> inv1 cl ->
+  all_ops (modify st cl k bs) = all_ops cl ++ ops_of_call st cl cc.
+Proof.
+  intros Hk Hi. unfold modify. destruct (c_started cl) eqn:Es.
+  - rewrite all_ops_enqueue by auto. simpl. rewrite (ops_of_call_modify st cl k bs cc) by auto. reflexivity.
+  - unfold ops_of_call. rewrite Hk, Es. rewrite app_nil_r. reflexivity.
+Qed.
+
+(* what a client call adds to the operations queued *)
+Lemma client_step_ops st cl cc : inv1 cl -> all_ops (client_step st cl cc) = all_ops cl ++ ops_of_call st cl cc.
+Proof.
+  intros Hi. destruct cc; simpl client_step;
+    try (unfold all_ops, queued, ops_of_call; simpl; rewrite app_nil_r; reflexivity);
+    try (apply modify_ops; auto; reflexivity).
+  - (* Start *)
+    unfold ops_of_call; simpl. rewrite app_nil_r.
+    destruct (c_started cl); [reflexivity|].
+    destruct ((c_mode cl =? 2) && _); reflexivity.
+  - (* StartSending *)
+    unfold ops_of_call; simpl. rewrite app_nil_r.
+    destruct (c_started cl && negb (c_sending cl)); [|reflexivity].
+    unfold all_ops, queued. simpl. rewrite !app_nil_r.
+    rewrite !flat_map_app, handshake_ops. reflexivity.
+  - (* UpdateElectionID *)
+    unfold ops_of_call; simpl. rewrite app_nil_r.
+    destruct (c_started cl); [|reflexivity]. rewrite all_ops_enqueue by auto. simpl. rewrite app_nil_r. reflexivity.
+Qed.
+
+Lemma inv1_enqueue cl m n cur : inv1 cl -> inv1 (enqueue cl m n cur).
+Proof.
+  unfold inv1, enqueue. intros H. destruct (c_sending cl) eqn:E; simpl; intros H'; [auto|congruence].
+Qed.
+
+Lemma client_step_inv1 st cl cc : inv1 cl -> inv1 (client_step st cl cc).
+Proof.
+  intros Hi. destruct cc; simpl client_step; try exact Hi;
+    try (unfold modify; destruct (c_started cl); [apply inv1_enqueue|]; exact Hi).
+  - destruct (c_started cl); [exact Hi|]. destruct ((c_mode cl =? 2) && _); exact Hi.
+  - destruct (c_started cl && negb (c_sending cl)); [|exact Hi]. intros _. reflexivity.
+Qed.
+
+Lemma client_step_count st cl cc :
+  c_count (client_step st cl cc) = c_count cl + N.of_nat (List.length (ops_of_call st cl cc)).
+Proof.
+  assert (Hm : forall k bs cc', opk_of cc' = Some (k, bs) ->
+                c_count (modify st cl k bs) = c_count cl + N.of_nat (List.length (ops_of_call st cl cc'))).
+  { intros k bs cc' Hk. unfold modify. destruct (c_started cl) eqn:Es.
+    - rewrite (ops_of_call_length st cl cc' k bs) by auto. unfold enqueue. destruct (c_sending cl); reflexivity.
+    - unfold ops_of_call. rewrite Hk, Es. simpl. lia. }
+  destruct cc; simpl client_step; try (apply Hm; reflexivity);
+    try (unfold ops_of_call; simpl; lia).
+  - unfold ops_of_call; simpl. destruct (c_started cl); [lia|]. destruct ((c_mode cl =? 2) && _); simpl; lia.
+  - unfold ops_of_call; simpl. destruct (c_started cl && negb (c_sending cl)); simpl; lia.
+  - unfold ops_of_call; simpl. destruct (c_started cl); [|lia]. unfold enqueue. destruct (c_sending cl); simpl; lia.
+Qed.
+
+Lemma ops_of_call_ids st cl cc :
+  map o_id (ops_of_call st cl cc) = nseq (c_count cl + 1) (List.length (ops_of_call st cl cc)).
+Proof.
+  unfold ops_of_call. destruct (opk_of cc) as [[k bs]|]; [|reflexivity].
+  destruct (c_started cl); [|reflexivity].
+  rewrite map_length, combine_length, nseq_length, Nat.min_id.
+  rewrite map_map. simpl. rewrite <- (map_fst_combine_nseq (c_count cl + 1) (entries st bs)) at 2.
+  reflexivity.
+Qed.
+
+(* the invariant behind C18_ids *)
+Definition cinv (cl : client) : Prop :=
+  inv1 cl /\ c_count cl = N.of_nat (List.length (all_ops cl))
+  /\ map o_id (all_ops cl) = nseq 1 (List.length (all_ops cl)).
+
+Lemma cinv0 : cinv client0.
+Proof. repeat split. Qed.
+
+Lemma client_step_cinv st cl cc : cinv cl -> cinv (client_step st cl cc).
+Proof.
+  intros (Hi & Hc & Hids). split; [apply client_step_inv1; auto|].
+  rewrite client_step_ops by auto. rewrite app_length. split.
+  - rewrite client_step_count. lia.
+  - rewrite map_app, Hids, ops_of_call_ids, nseq_app. f_equal. f_equal. lia.
+Qed.
+
+(* ================================================================== clients in a program *)
+
+Lemma run_snoc p x : run (p ++ [x]) = step_state (run p) x.
+Proof. unfold run, run_from. rewrite fold_left_app. reflexivity. Qed.
+
+Lemma cget_step_same s c cc :
+  cget (st_clients (step_state s (SClient c cc))) c = client_step (st_store s) (cget (st_clients s) c) cc.
+Proof. simpl. unfold cget at 1. rewrite (aget_aset_same N.eqb N.eqb_spec). reflexivity. Qed.
+
+Lemma cget_step_other s x c : (forall cc, x <> SClient c cc) -> cget (st_clients (step_state s x)) c = cget (st_clients s) c.
+Proof.
+  destruct x as [y k|y cl|y|y cc]; intros H; simpl;
+    try (destruct (sget (st_store s) y) as [[?|?|?]|]; reflexivity).
+  unfold cget. rewrite (aget_aset_other N.eqb N.eqb_spec); [reflexivity|].
+  intros ->. apply (H cc). reflexivity.
+Qed.
+
+Lemma store_step_client s c cc : st_store (step_state s (SClient c cc)) = st_store s.
+Proof. reflexivity. Qed.
+
+Theorem all_cinv p c : cinv (cget (st_clients (run p)) c).
+Proof.
+  induction p as [|x p IH] using rev_ind.
+  - apply cinv0.
+  - rewrite run_snoc. destruct x as [y k|y cl|y|y cc];
+      try (rewrite cget_step_other by (intros ? ?; discriminate); exact IH).
+    destruct (N.eq_dec y c) as [->|Hne].
+    + rewrite cget_step_same. apply client_step_cinv. exact IH.
+    + rewrite cget_step_other; [exact IH|]. intros cc' E. inversion E. congruence.
+Qed.
+
+(* C18_ids *)
+Theorem ids_exact p c :
+  let ops := all_ops (cget (st_clients (run p)) c) in
+  map o_id ops = ids_upto (List.length ops) /\ c_count (cget (st_clients (run p)) c) = N.of_nat (List.length ops).
+Proof. destruct (all_cinv p c) as (_ & Hc & Hids). split; assumption. Qed.
+
+Lemma client_calls_from_snoc p : forall pre c x,
+  client_calls_from pre c (p ++ [x])
+  = client_calls_from pre c p ++ match x with SClient y cc => if y =? c then [(pre ++ p, cc)] else [] | _ => [] end.
+Proof.
+  induction p as [|s p IH]; intros pre c x.
+  - simpl. rewrite app_nil_r. destruct x; simpl; try reflexivity. rewrite app_nil_r. reflexivity.
+  - destruct s; simpl; rewrite IH, <- ?app_assoc; simpl; reflexivity.
+Qed.
+
+Lemma client_calls_snoc p c x :
+  client_calls c (p ++ [x]) = client_calls c p ++ match x with SClient y cc => if y =? c then [(p, cc)] else [] | _ => [] end.
+Proof. unfold client_calls. rewrite client_calls_from_snoc. reflexivity. Qed.
+
+(* every operation client c has queued comes from exactly one AddEntry / ReplaceEntry / DeleteEntry call
+   on c, and is what that call had to queue in the state the program had reached *)
+Theorem ops_provenance p c :
+  all_ops (cget (st_clients (run p)) c)
+  = flat_map (fun pc => ops_of_call (st_store (run (fst pc))) (cget (st_clients (run (fst pc))) c) (snd pc))
+             (client_calls c p).
+Proof.
+  induction p as [|x p IH] using rev_ind.
+  - reflexivity.
+  - rewrite run_snoc, client_calls_snoc, flat_map_app, <- IH.
+    destruct x as [y k|y cl|y|y cc];
+      try (rewrite cget_step_other by (intros ? ?; discriminate); simpl; rewrite app_nil_r; reflexivity).
+    destruct (N.eqb_spec y c) as [->|Hne].
+    + rewrite cget_step_same. rewrite client_step_ops by (apply all_cinv). simpl. rewrite app_nil_r. reflexivity.
+    + rewrite cget_step_other; [simpl; rewrite app_nil_r; reflexivity|]. intros cc' E. inversion E. congruence.
+Qed.
+
+(* messages already queued are never altered: the queue of operations only grows at its end *)
+Theorem ops_stable p q c :
+  exists l, all_ops (cget (st_clients (run (p ++ q))) c) = all_ops (cget (st_clients (run p)) c) ++ l.
+Proof.
+  induction q as [|x q IH] using rev_ind.
+  - exists []. rewrite !app_nil_r. reflexivity.
+  - destruct IH as [l Hl]. rewrite app_assoc, run_snoc.
+    destruct x as [y k|y cl|y|y cc];
+      try (rewrite cget_step_other by (intros ? ?; discriminate); exists l; exact Hl).
+    destruct (N.eq_dec y c) as [->|Hne].
+    + rewrite cget_step_same, client_step_ops by (apply all_cinv). rewrite Hl, <- app_assoc. eexists. reflexivity.
+    + rewrite cget_step_other; [exists l; exact Hl|]. intros cc' E. inversion E. congruence.
+Qed.
+
+(* ---- current election id and redundancy mode: the argument of the last call that sets them ---- *)
+
+Lemma enqueue_cur cl m n cur : c_cur (enqueue cl m n cur) = cur.
+Proof. unfold enqueue. destruct (c_sending cl); reflexivity. Qed.
+Lemma enqueue_mode cl m n cur : c_mode (enqueue cl m n cur) = c_mode cl.
+Proof. unfold enqueue. destruct (c_sending cl); reflexivity. Qed.
+Lemma enqueue_started cl m n cur : c_started (enqueue cl m n cur) = c_started cl.
+Proof. unfold enqueue. destruct (c_sending cl); reflexivity. Qed.
+
+Lemma client_step_cur st cl cc :
+  c_cur (client_step st cl cc) = match sets_cur (c_started cl) cc with Some v => v | None => c_cur cl end.
+Proof.
+  destruct cc; simpl; try reflexivity;
+    try (unfold modify; destruct (c_started cl); [apply enqueue_cur|reflexivity]).
+  - destruct (c_started cl); [reflexivity|]. destruct ((c_mode cl =? 2) && _); reflexivity.
+  - destruct (c_started cl && negb (c_sending cl)); reflexivity.
+Qed.
+
+Lemma client_step_mode st cl cc :
+  c_mode (client_step st cl cc) = match sets_mode cc with Some v => v | None => c_mode cl end.
+Proof.
+  destruct cc; simpl; try reflexivity;
+    try (unfold modify; destruct (c_started cl); [apply enqueue_mode|reflexivity]).
+  - destruct (c_started cl); [reflexivity|]. destruct ((c_mode cl =? 2) && _); reflexivity.
+  - destruct (c_started cl && negb (c_sending cl)); reflexivity.
+Qed.
+
+Theorem cur_exact p c :
+  c_cur (cget (st_clients (run p)) c)
+  = last_or (fun pc => sets_cur (c_started (cget (st_clients (run (fst pc))) c)) (snd pc)) None (client_calls c p).
+Proof.
+  induction p as [|x p IH] using rev_ind.
+  - reflexivity.
+  - rewrite run_snoc, client_calls_snoc, last_or_app, <- IH.
+    destruct x as [y k|y cl|y|y cc];
+      try (rewrite cget_step_other by (intros ? ?; discriminate); reflexivity).
+    destruct (N.eqb_spec y c) as [->|Hne].
+    + rewrite cget_step_same, client_step_cur. reflexivity.
+    + rewrite cget_step_other; [reflexivity|]. intros cc' E. inversion E. congruence.
+Qed.
+
+Theorem mode_exact p c :
+  c_mode (cget (st_clients (run p)) c) = last_or (fun pc => sets_mode (snd pc)) 0 (client_calls c p).
+Proof.
+  induction p as [|x p IH] using rev_ind.
+  - reflexivity.
+  - rewrite run_snoc, client_calls_snoc, last_or_app, <- IH.
+    destruct x as [y k|y cl|y|y cc];
+      try (rewrite cget_step_other by (intros ? ?; discriminate); reflexivity).
+    destruct (N.eqb_spec y c) as [->|Hne].
+    + rewrite cget_step_same, client_step_mode. reflexivity.
+    + rewrite cget_step_other; [reflexivity|]. intros cc' E. inversion E. congruence.
+Qed.
+
+(* ---- OpProto / EntryProto observations ---- *)
+
+Lemma proto_calls_from_snoc p : forall pre x,
+  proto_calls_from pre (p ++ [x]) = proto_calls_from pre p ++ match x with SProto b => [(pre ++ p, b)] | _ => [] end.
+Proof.
+  induction p as [|s p IH]; intros pre x.
+  - simpl. rewrite app_nil_r. destruct x; reflexivity.
+  - destruct s; simpl; rewrite IH, <- ?app_assoc; simpl; reflexivity.
+Qed.
+
+Lemma proto_calls_snoc p x :
+  proto_calls (p ++ [x]) = proto_calls p ++ match x with SProto b => [(p, b)] | _ => [] end.
+Proof. unfold proto_calls. rewrite proto_calls_from_snoc. reflexivity. Qed.
+
+Theorem protos_exact p :
+  st_protos (run p)
+  = flat_map (fun pb => let st := st_store (run (fst pb)) in
+                        match sget st (snd pb) with
+                        | Some (BE e) => [(op_proto st e, entry_proto st e)]
+                        | _ => []
+                        end) (proto_calls p).
+Proof.
+  induction p as [|x p IH] using rev_ind.
+  - reflexivity.
+  - rewrite run_snoc, proto_calls_snoc, flat_map_app, <- IH.
+    destruct x as [y k|y cl|y|y cc]; simpl.
+    + rewrite app_nil_r. destruct (sget (st_store (run p)) y); reflexivity.
+    + rewrite app_nil_r. destruct (sget (st_store (run p)) y); reflexivity.
+    + destruct (sget (st_store (run p)) y) as [[e|ls|m]|]; simpl; rewrite ?app_nil_r; reflexivity.
+    + rewrite app_nil_r. reflexivity.
+Qed.
+
+(* the shape of one queued operation *)
+Lemma in_ops_of_call st cl cc o : In o (ops_of_call st cl cc) ->
+  exists k bs e, opk_of cc = Some (k, bs) /\ c_started cl = true /\ In e (entries st bs)
+    /\ o_op o = k /\ o_ni o = b_ni e /\ o_entry o = payload_of st (b_pb e)
+    /\ o_elec o = match b_elec e with Some own => Some own | None => if c_mode cl =? 2 then c_cur cl else None end.
+Proof.
+  unfold ops_of_call. destruct (opk_of cc) as [[k bs]|]; [|intros []].
+  destruct (c_started cl); [|intros []].
+  intros H. apply in_map_iff in H. destruct H as ([i e] & <- & Hin).
+  exists k, bs, e. apply in_combine_r in Hin. repeat split; auto.
+Qed.
+
+Lemma in_entries st bs e : In e (entries st bs) -> exists b, In b bs /\ sget st b = Some (BE e).
+Proof.
+  unfold entries. intros H. apply in_flat_map in H. destruct H as (b & Hb & He).
+  exists b. split; auto. destruct (sget st b) as [[e'|?|?]|]; simpl in He; try contradiction.
+  destruct He as [->|[]]. reflexivity.
+Qed.
+
+(* where a queued operation comes from, and what it therefore carries *)
+Theorem op_origin p c o : In o (all_ops (cget (st_clients (run p)) c)) ->
+  exists pre cc k bs b e,
+    In (pre, cc) (client_calls c p) /\ opk_of cc = Some (k, bs) /\ In b bs /\ spec_store pre b = Some (BE e)
+    /\ o_op o = k /\ o_ni o = b_ni e /\ o_entry o = payload_of (st_store (run pre)) (b_pb e)
+    /\ o_elec o = match b_elec e with
+                  | Some own => Some own
+                  | None => if c_mode (cget (st_clients (run pre)) c) =? 2 then c_cur (cget (st_clients (run pre)) c) else None
+                  end.
+Proof.
+  rewrite ops_provenance. intros H. apply in_flat_map in H. destruct H as ([pre cc] & Hin & Ho). simpl in Ho.
+  apply in_ops_of_call in Ho. destruct Ho as (k & bs & e & Hk & _ & He & H1 & H2 & H3 & H4).
+  apply in_entries in He. destruct He as (b & Hb & Hs). rewrite store_exact in Hs.
+  exists pre, cc, k, bs, b, e. repeat split; auto.
+Qed.
+
+(* the same with the payload read off the tables alone *)
+Corollary op_fields_exact p c o : In o (all_ops (cget (st_clients (run p)) c)) ->
+  exists pre cc k bs b e,
+    In (pre, cc) (client_calls c p) /\ opk_of cc = Some (k, bs) /\ In b bs /\ spec_store pre b = Some (BE e)
+    /\ o_ni o = b_ni e /\ o_entry o = payload_with (spec_resolve pre) (b_pb e).
+Proof.
+  intros H. destruct (op_origin p c o H) as (pre & cc & k & bs & b & e & H1 & H2 & H3 & H4 & _ & H6 & H7 & _).
+  exists pre, cc, k, bs, b, e. rewrite payload_exact in H7. repeat split; auto.
+Qed.
+
+Corollary op_type_exact p c o : In o (all_ops (cget (st_clients (run p)) c)) ->
+  exists pre cc k bs, In (pre, cc) (client_calls c p) /\ opk_of cc = Some (k, bs) /\ o_op o = k.
+Proof.
+  intros H. destruct (op_origin p c o H) as (pre & cc & k & bs & b & e & H1 & H2 & _ & _ & H5 & _).
+  exists pre, cc, k, bs. auto.
+Qed.
+
+Corollary op_type_range p c o : In o (all_ops (cget (st_clients (run p)) c)) -> o_op o = 1 \/ o_op o = 2 \/ o_op o = 3.
+Proof.
+  intros H. destruct (op_type_exact p c o H) as (pre & cc & k & bs & _ & Hk & <-).
+  destruct cc; simpl in Hk; inversion Hk; auto.
+Qed.
+
+Corollary stamp_exact p c o : In o (all_ops (cget (st_clients (run p)) c)) ->
+  exists pre cc k bs b e,
+    In (pre, cc) (client_calls c p) /\ opk_of cc = Some (k, bs) /\ In b bs /\ spec_store pre b = Some (BE e)
+    /\ let cl := cget (st_clients (run pre)) c in
+       o_elec o = match b_elec e with
+                  | Some own => Some own
+                  | None => if c_mode cl =? 2 then c_cur cl else None
+                  end.
+Proof.
+  intros H. destruct (op_origin p c o H) as (pre & cc & k & bs & b & e & H1 & H2 & H3 & H4 & _ & _ & _ & H8).
+  exists pre, cc, k, bs, b, e. auto.
+Qed.
